@@ -146,7 +146,10 @@ var hostile = []string{"", "\r\n", "a\r\nb", "\r\n+OK\r\n", "\x00", "\xff\xfe", 
 func (b *B) strval(withToken bool) string {
 	r := b.R
 	var s string
-	switch r.Intn(8) {
+	switch r.Intn(9) {
+	case 8:
+		s = "" // the empty string is a frequent boundary: '$0' has no payload bytes in front of its CRLF
+		b.tag("binary")
 	case 0:
 		s = rng.Pick(r, hostile)
 		b.tag("binary")
